@@ -8,6 +8,9 @@
 //	  -> "<status> <summary> fuzz=<ok|panic|skip> T <event trace, ';' separated>"
 //	     status: settled | stuck | steps | panic   (panic: a recovered Go panic inside the simulator)
 //
+//	udp.rcv <messages> <arrivals>   one real IncomingConnection fed with chunk datagrams (see overlay/verif_window.go)
+//	udp.snd <ops>                   one real OutgoingConnection: slicing, AckChunk, AckPrefix
+//
 // The event trace is produced by the overlay pkg/rpc/udp/verif_sim.go (see there for the grammar).
 package main
 
@@ -81,8 +84,24 @@ func handle(line string) string {
 			tr = "-"
 		}
 		return status + " " + r.Summary + " fuzz=" + fz + " limit=" + strconv.Itoa(udp.VerifLimit()) + " T " + tr
+	case f[0] == "udp.rcv" && len(f) == 3:
+		return guard(func() string { return udp.VerifRecv(f[1], f[2]) })
+	case f[0] == "udp.snd" && len(f) == 2:
+		return guard(func() string { return udp.VerifSend(f[1]) })
 	}
 	return "bad-op"
+}
+
+func guard(fn func() string) (res string) {
+	defer func() {
+		if p := recover(); p != nil {
+			if os.Getenv("VERIF_DEBUG") != "" {
+				fmt.Fprintf(os.Stderr, "panic: %v\n", p)
+			}
+			res = "panic"
+		}
+	}()
+	return fn()
 }
 
 func main() {
